@@ -194,11 +194,13 @@ def run(ctx):
     # the altitude -> pressure conversion itself (shared with C12-R1/R2: canonical-form comparison with ISA)
     from .c12 import rule_isa
     sub = type(ctx)(ctx.prop, ctx.prog, ctx.tier)
-    rule_isa(sub)
-    for o in sub.obligations:
-        if 'pressure_at_altitude' in o.function or 'temperature_at_altitude' in o.function or o.function == '<module>':
-            o.rule = 'C16-R4'
-            ctx.obligations.append(o)
+    try:
+        rule_isa(sub)
+    finally:
+        for o in sub.obligations:
+            if 'pressure_at_altitude' in o.function or 'temperature_at_altitude' in o.function or o.function == '<module>':
+                o.rule = 'C16-R4'
+                ctx.obligations.append(o)
 
     # R6 slice cache key
     rd = m.func('Weather._require_data')
